@@ -399,7 +399,7 @@ class Rule(MethodWIGM):
             else:
                 ballot.topCand.vote += ballot.vote
 
-        def findCertainLosers(surplus):
+        def findCertainLosers(surplus, exclude=()):
             '''
             Find the group of candidates that cannot be elected per 167.20
             '''
@@ -415,7 +415,7 @@ class Rule(MethodWIGM):
 
             #  sortedCands = hopeful candidates, sorted by vote
             #
-            sortedCands = C.hopeful(order='vote')
+            sortedCands = [c for c in C.hopeful(order='vote') if c not in exclude]   # (write-ins defeated in this round are already out)
 
             #   Scan the candidates to find the biggest set of lowest-vote
             #   'certain-loser' candidates such that:
@@ -426,7 +426,7 @@ class Rule(MethodWIGM):
             vote = V0
             losers = []
             maybe = []
-            maxDefeat = len(C.hopeful()) - E.seatsLeftToFill() # limit number of defeats
+            maxDefeat = len(sortedCands) - E.seatsLeftToFill() # limit number of defeats
             for cx in range(len(sortedCands) - 1):
                 c = sortedCands[cx]
                 maybe.append(c)
@@ -538,7 +538,7 @@ class Rule(MethodWIGM):
             if E.round == 2:
                 defeatCandidates = [c for c in C.hopeful() if c.isUndeclared]
                 undeclaredVotes = sum((b.vote for b in E.ballots if b.topCand.isUndeclared), V0)
-            defeatCandidates += findCertainLosers(E.surplus + undeclaredVotes)
+            defeatCandidates += findCertainLosers(E.surplus + undeclaredVotes, defeatCandidates)
             if defeatCandidates:
                 do(c.defeat('Defeat %s' % ("undeclared write-in" if c.isUndeclared else "certain loser"))
                    for c in defeatCandidates)
